@@ -33,7 +33,7 @@ OPS = ('scan', 'parse', 'compose_all', 'load_all')
 
 def plan(tier, seed):
     q = tier == 'quick'
-    specs = [{'kind': 'streams', 'shard': i, 'n': 9 if q else 500, 'cext': 'plain', 'big': not q} for i in range(12 if q else 14)]
+    specs = [{'kind': 'streams', 'shard': i, 'n': 9 if q else 220, 'cext': 'plain', 'big': not q} for i in range(12 if q else 14)]
     specs += [{'kind': 'malformed', 'shard': i, 'n': 60 if q else 1500, 'cext': 'plain'} for i in range(2 if q else 4)]
     specs += [{'kind': 'release', 'shard': i, 'n': 40 if q else 800, 'cext': 'plain'} for i in range(2)]
     return specs
